@@ -461,9 +461,12 @@ def r01_234(chk, cr):
         it = loop.iter
         elem = P.atom(("sub", it, (loop.index,))) if it is not None else None
         chk.ob("R01.4", CR, q, "the merge loop runs over the enumerated close pairs", kind is not None and it is not None and
-               (it.key() == "$dist.items()" or "query_pairs" in it.key()), found=str(it))
+               (it.key() in ("$dist.items()", "$dist.keys()", "$dist") or "query_pairs" in it.key()), found=str(it))
         if it is not None and it.key() == "$dist.items()":
             pair = P.atom(("sub", elem, (P.const(0),)))
+            needs_filter = True
+        elif it is not None and it.key() in ("$dist.keys()", "$dist"):
+            pair = elem                    # the keys of the sparse matrix are the (i, j) pairs, in the order of items()
             needs_filter = True
         else:
             pair = elem
@@ -532,6 +535,9 @@ def r01_5(chk, repo, cr):
         items = dict_items(e.extra["args"][2])
         if items:
             keys = {k for k, _, _ in items}
+    for e in ev.events:
+        if e.kind == "store" and e.target.key() == "self._unit_cell_atom_dict" and dict_items(e.value):
+            keys = {k for k, _, _ in dict_items(e.value)}
     chk.need(keys, "unit_cell_atoms: dictionary keys not found")
     sv = cr.ev("Crystal.slab")
     slab_keys = {k for k in keys if not k.endswith("pos")}
